@@ -739,7 +739,12 @@ def setitem(a, key, value, aug=None):
             v = scalar_binop(aug, old(bidx), v)
         v = _cast(v, a.dtype) if a.dtype in ("float", "int", "complex", "bool") else v
         if isinstance(v, Cx) and a.dtype == "float":
-            raise EngineError("complex stored into float array")
+            if not aug:
+                raise EngineError("complex stored into float array")
+            # a[i] op= z with a float array: a[i] op z is a numpy complex128 scalar; the item store casts it to the real
+            # part and emits numpy's ComplexWarning (checked natively on numpy 2.x); a plain python complex would raise
+            st.trace.append(("warning", "ComplexWarning", st.where))
+            v = v.re
 
         def fn(idx, old=old, bidx=bidx, v=v):
             return ite(_idx_eq(idx, bidx), v, lambda: old(idx))
